@@ -125,9 +125,9 @@ class World:
         """one read / write of a parameter by the client (dispatcher) or the driver (method call)"""
         if via == 'client':
             return self.request('change' if kind == 'w' else 'read', m, pname, value)
-        if kind == 'w':
-            return self.call(getattr(m, 'write_' + pname), value)
-        return self.call(getattr(m, 'read_' + pname))
+        if kind == 'w':     # a missing access method counts as a refusal, not as a harness error
+            return self.call(lambda: getattr(m, 'write_' + pname)(value))
+        return self.call(lambda: getattr(m, 'read_' + pname)())
 
 
 # ------------------------------------------------------------------ (1) struct <-> members
@@ -843,7 +843,9 @@ def replay(chk, rep):
                 print('   expected one of', d['expected'])
                 break
     else:
-        for e in d['trace'][:d['failed_at']]:
-            print(e)
-        print('event', d['failed_at'], 'is not explained by', sub)
+        again = _random_trace(tuple(d['args']))      # re-executed on the real modules
+        for e, old in zip(again[:d['failed_at']], d['trace']):
+            print(e, '' if e == old else '   (recorded: %r)' % old)
+        print('event', d['failed_at'], 'was not explained by', sub, '- validating the re-execution:')
+        print(validate_traces('Trace_' + sub, [again], f'Trace_{sub}.cfg')[0][0] or 'accepted')
     return 0
